@@ -16,7 +16,8 @@ for l in open(v + "/properties.jsonl"):
     p = json.loads(l)
     if p["id"] == pid:
         json.dump(p, open(d + "/PROPERTY.json", "w"), indent=1)
-t = open(v + "/tools/seed_task_template.md").read().replace("{DIR}", d).replace("{A}", a).replace("{B}", b)
+tried = json.load(open(v + "/tools/seed_tried.json")).get(pid, [])
+t = open(v + "/tools/seed_task_template.md").read().replace("{DIR}", d).replace("{A}", a).replace("{B}", b).replace("{TRIED}", ", ".join(tried) or "(none)")
 open(d + "/TASK.md", "w").write(t)
 PY
 done
